@@ -242,6 +242,12 @@ def main(pid: str, run: Callable[[Ctx], None], replay: Callable[[Ctx, Any], None
     seed = int(os.environ.get("VERIF_SEED", "0") or 0)
     os.makedirs(os.path.join(VERIF, "work"), exist_ok=True)
     workdir = tempfile.mkdtemp(prefix=f"{pid}_", dir=os.path.join(VERIF, "work"))
+    # temporary files of everything the check starts (selene build/run directories, pytket, ...) live inside the
+    # check's own work directory, which is removed at the end: nothing accumulates under /tmp
+    tmp = os.path.join(workdir, "tmp")
+    os.makedirs(tmp, exist_ok=True)
+    os.environ["TMPDIR"] = tmp
+    tempfile.tempdir = tmp
     ctx = Ctx(pid, args.tier, seed, workdir, args)
     rc = 0
     try:
